@@ -381,7 +381,7 @@ def _frac(v):
     raise HarnessError('model value not numeric: %s' % v)
 
 
-def _guarded_check(solver, seconds=40.0):
+def _guarded_check(solver, seconds=30.0):
     """check() of a fresh (non-incremental) solver under its rlimit plus a wall-clock guard that does not use z3's
     own timer threads: a Python timer thread interrupts the context (the answer is then `unknown`)"""
     import threading
@@ -432,7 +432,8 @@ class Engine:
         # resource limits instead of wall-clock timeouts: deterministic, and no z3 timer threads (z3 5.1's scoped_timer
         # was seen dead-locked in its destructor, spinning in sched_yield forever, after a few million timed checks)
         self.rlimit = int(os.environ.get('SYMX_RLIMIT', 2000000))
-        self.fallback_rlimit = int(os.environ.get('SYMX_FALLBACK_RLIMIT', 15000000))
+        # 0 = unlimited: the fresh solver is bounded by the 30 s interrupt guard instead
+        self.fallback_rlimit = int(os.environ.get('SYMX_FALLBACK_RLIMIT', 0))
         self.solver.set('rlimit', self.rlimit)
         self.solver_timeout_ms = solver_timeout_ms
         self._fresh_model = None
@@ -654,10 +655,16 @@ class Engine:
             self.solver.add(e if v else z3.Not(e))
             self.trace.append((v, False))
             return v
+        # the solver could not decide whether the other branch is feasible: do not prune it silently, explore it as
+        # well (if it is infeasible its first model refresh will say so); the path is counted as inconclusive
         self.stats.unknown += 1
         if 'unknown' not in self.flags:
             self.flags.append('unknown')
-        self.trace.append((v, True))
+        self.stack.append((self.trace + [(not v, False)], None))
+        self.solver.push()
+        self.scopes.append(i)
+        self.solver.add(e if v else z3.Not(e))
+        self.trace.append((v, False))
         return v
 
     def concretise(self, x):
